@@ -350,8 +350,63 @@ def foreign_options(h: Harness):
                        f"VarRange({options}) on a field declared str generated {wrong[0]!r}, which is not one of its options ({name})", [name, trial])
 
 
+def weighted_strings(h: Harness):
+    """fixed-length weighted strings (WeightedStringHandler with a probability matrix that has ordinary rows, rows with zero entries,
+    an all-zero row and a row below the chooser's resolution): every string any representation creates has one letter per row,
+    all from the alphabet, never a letter of probability 0 where the row has usable weights -- and the handler's own validity
+    check accepts it"""
+    import wsgrammar
+    from linear import DSGE, GE, SGE, safe
+    from geneticengine.random.sources import NativeRandomSource
+    from geneticengine.representations.tree.treebased import TreeBasedRepresentation
+    g = wsgrammar.grammar()
+    matrix = wsgrammar.MATRIX.copy()
+    letters = ["A", "C", "G", "T"]
+    rng = h.rng
+    r = NativeRandomSource(rng.randrange(10**6))
+    reps = [("tree", TreeBasedRepresentation(g, synth.make_decider("grow", 3, r, g))), ("GE", GE(g, synth.make_decider("grow", 3, r, g), gene_length=48)),
+            ("SGE", SGE(g, synth.make_decider("grow", 3, r, g), gene_length=48)), ("DynamicSGE", DSGE(g, 3))]
+    for name, rep in reps:
+        for trial in range(h.n(10, 80)):
+            st, geno = safe(lambda: rep.create_genotype(r))
+            if st != "ok":
+                continue
+            if trial % 2:
+                st, geno = safe(lambda: rep.mutate(r, geno))
+                if st != "ok":
+                    continue
+            st, p = safe(lambda: rep.genotype_to_phenotype(geno))
+            if st != "ok":
+                continue
+            todo = [p]
+            while todo:
+                x = todo.pop()
+                if isinstance(x, wsgrammar.Join):
+                    todo += [x.l, x.r]
+                    continue
+                s = x.s
+                h.count(f"weighted-strings:{name}")
+                h.seen(f"ws:{name}:{s}", nontrivial=True)
+                site = f"{name}.genotype_to_phenotype" if name != "tree" else "TreeBasedRepresentation.create_genotype"
+                bad = None
+                if not isinstance(s, str) or len(s) != len(matrix) or any(ch not in letters for ch in s):
+                    bad = f"{s!r} is not a string of {len(matrix)} letters over {letters}"
+                else:
+                    for pos, ch in enumerate(s):
+                        row = matrix[pos]
+                        if int(sum(row) * 100000) > 0 and row[letters.index(ch)] == 0:
+                            bad = f"{s!r} has letter {ch!r} at position {pos}, where its probability is 0 (row {row.tolist()})"
+                if bad:
+                    h.fail(site, "refinement-violated", f"WeightedStringHandler field: {bad}", [name, trial, repr(s)])
+                elif not wsgrammar.HANDLER.validate(s):
+                    h.fail("WeightedStringHandler.validate", "validate-rejects-generated-value",
+                           f"WeightedStringHandler.validate rejects {s!r}, a value its own generate() produced ({name})", [name, trial, s])
+    wsgrammar.MATRIX[:] = matrix
+
+
 def run(h: Harness):
     boxes(h)
+    weighted_strings(h)
     float_refinements(h)
     foreign_options(h)
     sibling_isolation(h)
